@@ -11,8 +11,9 @@
 From Sdns Require Export Common.Base Gen.C10 C10.Model.
 Open Scope N_scope.
 
-(* dns.MaxMsgSize (miekg/dns, outside the repository: not regenerated; the driver's boundary
-   cases 65535 / 65536 tie it) *)
+(* dns.MaxMsgSize = tcpJobBufSize: Gen.C10.tcp_job_buf_size is the source's value (evaluated with
+   the miekg constant); Proofs_Pool.stream_constants proves it equal to this numeral, which the
+   framing proofs compute with *)
 Definition max_msg_size : N := 65535.
 
 Definition frame (p : list byte) : list byte :=
